@@ -90,6 +90,21 @@ Proof.
     rewrite skipn_app, skipn_all, Nat.sub_diag. reflexivity.
 Qed.
 
+Lemma advance_suffix st st1 :
+  check_clean st = (st1, true) -> exists pre2, a_buf st1 = pre2 ++ a_buf (a_advance ascii st1).
+Proof.
+  intros Hc.
+  destruct (ascii_check_gate st st1 Hc) as (pre & D & c1 & c2 & rest & data & _ & (Hbuf & _) & Hlen).
+  rewrite a_advance_eq. cbn [a_buf]. rewrite Hlen, pyfrom_nn by lia.
+  exists (COLON :: (D ++ [c1; c2]) ++ [CR; LF]).
+  rewrite Hbuf.
+  replace (Z.to_nat (Z.of_nat (S (length D + 2)) + 2)) with (length (COLON :: (D ++ [c1; c2]) ++ [CR; LF]))
+    by (cbn [length]; rewrite !app_length; cbn [length]; lia).
+  change (COLON :: (D ++ [c1; c2]) ++ CR :: LF :: rest) with (COLON :: (D ++ [c1; c2]) ++ [CR; LF] ++ rest).
+  rewrite app_assoc. change (COLON :: ((D ++ [c1; c2]) ++ [CR; LF]) ++ rest) with ((COLON :: (D ++ [c1; c2]) ++ [CR; LF]) ++ rest).
+  rewrite skipn_app, skipn_all, Nat.sub_diag. reflexivity.
+Qed.
+
 Theorem ascii_loop_gate dec units single : forall fuel st st' ds o,
   a_loop base lrc ascii dec fuel units single st = (st', ds, o) ->
   Forall (ascii_justified (a_buf st)) ds.
@@ -109,8 +124,9 @@ Proof.
         -- rewrite Hpre. apply justified_lift, Hj.
         -- specialize (IH _ _ _ _ Er). eapply Forall_impl; [|exact IH].
            intros d Hd. rewrite Hpre, Hp2, app_assoc. apply justified_lift, Hd.
-      * specialize (IH _ _ _ _ H). rewrite a_reset_eq in IH. cbn [a_buf] in IH.
-        eapply Forall_impl; [|exact IH]. intros d Hd. rewrite <- (app_nil_r (a_buf st)). apply justified_lift, Hd.
+      * (* unit not served: advanceFrame *)
+        specialize (IH _ _ _ _ H). destruct (advance_suffix st st1 Hc) as (pre2 & Hp2).
+        eapply Forall_impl; [|exact IH]. intros d Hd. rewrite Hpre, Hp2, app_assoc. apply justified_lift, Hd.
       * injection H as _ <- _. constructor.
     + destruct (beval (aenv ascii st1) (a_droptest ascii)); [|injection H as _ <- _; constructor].
       specialize (IH _ _ _ _ H). rewrite a_dropone_eq in IH. cbn [a_buf] in IH. rewrite pyfrom_nn in IH by lia.
